@@ -19,7 +19,8 @@ RULE = ("Generated project + 0-2 edits, built once; then the next invocation (af
         "the final state at another path: it must exit 0 and every package result must have the identical canonical "
         "tree (junk written by aborted scripts makes 'wrongly considered up to date' visible). Non-trivial: the "
         "abort happened after >=1 step of the invocation had finished and before the last one started; distinct = "
-        "hash of (model, edits, fault plan).")
+        "hash of (model, edits, fault plan). In addition 0-3 (thorough: 2-6) further kill points of the same invocation are "
+        "tried one by one from a snapshot of the workspace taken before the aborted invocation.")
 ASSUMPTIONS = ["kill points are enumerated with -j1 (deterministic order)",
                "Bob's own death is emulated in-process (a BaseException at the kill point; every later instrumented "
                "mutation raises it again) because forking is very slow here; a script killing Bob (kill -9) uses a real "
@@ -135,6 +136,10 @@ def run_case(ctx, case, confirm=False):
         K = len(points)
         partial = False
         plan_desc = []
+        snap = None
+        if case.get("extra") and K:
+            snap = os.path.join(base, "snap")
+            shutil.copytree(W, snap, symlinks=True)
         for fi, fault in enumerate(case["faults"]):
             kind = fault[0]
             C1.reset_events(W)
@@ -207,6 +212,36 @@ def run_case(ctx, case, confirm=False):
                     pass
                 ctx.fail("result-differs-after-abort", "after %r package %s differs from the clean build: %r %s" %
                          (plan_desc, name, treecanon.diff(cw, cx, 3), first), case)
+        # further kill points of the same invocation, each tried on its own from a snapshot of the workspace (the clean
+        # reference is shared): more of the kill-point space per generated history
+        hot = sorted({j + d for j, p in enumerate(points) if p[1] in ("emptyDirectory", "removePath", "hashWorkspace", "runShell")
+                      for d in (-1, 0, 1) if 0 <= j + d < K})
+        for n, x in enumerate(case.get("extra") or []):
+            if snap is None:
+                break
+            if isinstance(x, list):
+                k = 1 + (x[1] - 1) % K                  # hand-written cases name the kill point directly
+            else:
+                k = 1 + (hot[x % len(hot)] if hot and x % 2 else x % K)
+            W2 = os.path.join(base, "w")            # same path: workspaces may record their location
+            vlib.rmtree(W2)
+            shutil.copytree(snap, W2, symlinks=True)
+            C1.reset_events(W2)
+            desc = ["exit at kill point %d/%d (%s %s)" % (k, K, points[k-1][1], points[k-1][2])]
+            run_patched(confirm, W2, argv(final), C1.env_for(W2), os.path.join(base, "pointsx%d.log" % n), kill_at=k)
+            bobproc.remove_stale_lock(W2)
+            r2 = run(W2, C1.build_argv(final, mode, None), env_extra=C1.env_for(W2))
+            ctx.label("extra-kill-point")
+            if r2.rc != 0:
+                ctx.fail("build-after-abort-fails", "after %r the next invocation fails: %s" % (desc, r2.err[-600:]), dict(case, faults=[["exit", k - 1, 0]], extra=[]))
+            dw2, _ = C1.dist_map(run, W2, final, mode)
+            for name, dpath in sorted(dx.items()):
+                if dw2 is None or name not in dw2:
+                    ctx.fail("result-missing-after-abort", "after %r package %s has no result" % (desc, name), dict(case, faults=[["exit", k - 1, 0]], extra=[]))
+                cw, cx = treecanon.canon(os.path.join(W2, dw2[name])), treecanon.canon(os.path.join(X, dpath))
+                if cw != cx:
+                    ctx.fail("result-differs-after-abort", "after %r package %s differs from the clean build: %r" %
+                             (desc, name, treecanon.diff(cw, cx, 3)), dict(case, faults=[["exit", k - 1, 0]], extra=[]))
     finally:
         vlib.rmtree(base)
 
@@ -220,6 +255,7 @@ def case_st(quick):
         "mode": st.sampled_from(["dev", "dev", "build"]),
         "force": st.booleans(),
         "faults": st.lists(fault_st, min_size=1, max_size=2),
+        "extra": st.lists(I, min_size=0 if quick else 2, max_size=3 if quick else 6),
     })
 
 def check(ctx, case):
@@ -237,6 +273,6 @@ def shard(ctx):
     run_hypothesis(ctx, case_st(ctx.quick()), lambda c: check(ctx, c), ctx.n(640, 6000), shrink=False, minimize=("faults", "edits"))
 
 def replay(ctx, case):
-    run_case(ctx, case, confirm=True)
+    check(ctx, case)          # in-process first; a failure is confirmed with real processes before it is reported
 
 FINDINGS = {}
